@@ -557,12 +557,48 @@ func (la *loopAnalyser) boundedExit(f *ssa.Function, s map[*ssa.BasicBlock]bool,
 				continue
 			}
 			switch cb.Op {
-			case token.LSS, token.LEQ, token.GTR, token.GEQ, token.NEQ:
+			case token.LSS, token.LEQ, token.GTR, token.GEQ, token.NEQ, token.EQL:
 			default:
 				continue
 			}
 			if _, ok := constInt(lim); ok {
-				return "K", "induction variable compared with a constant"
+				// counting towards a constant: the number of iterations is set by where the
+				// variable starts, so the starting value must itself be a constant, bounded
+				// by memory already held, or pre-charged
+				inits, isPhi := la.initialValues(iv, s)
+				if !isPhi {
+					return "K", "induction variable compared with a constant"
+				}
+				allK, allBounded, allCharged := true, true, true
+				for _, v0 := range inits {
+					v0 = stripConv(v0)
+					if _, ok := constInt(v0); ok {
+						continue
+					}
+					allK = false
+					if isLenCall(v0) || derivesFromLengthOnly(v0) {
+						continue
+					}
+					if bits, _, ok := intWidth(v0.Type()); ok && bits <= 16 {
+						continue
+					}
+					if ok, _ := upperBoundedAt(la.p, f, v0, h.Instrs[0]); ok {
+						continue
+					}
+					allBounded = false
+					if !la.preCharged(f, v0, h) {
+						allCharged = false
+					}
+				}
+				switch {
+				case allK:
+					return "K", "induction variable runs between two constants"
+				case allBounded:
+					return "L", "induction variable counts to a constant from a value bounded by memory already held"
+				case allCharged:
+					return "P", "induction variable counts to a constant from a value that a dominating CPU or memory charge covers"
+				}
+				continue
 			}
 			sl := stripConv(lim)
 			if isLenCall(sl) {
@@ -579,6 +615,43 @@ func (la *loopAnalyser) boundedExit(f *ssa.Function, s map[*ssa.BasicBlock]bool,
 			}
 			if la.preCharged(f, sl, h) {
 				return "P", "a CPU or memory charge on the same bound dominates the loop"
+			}
+		}
+	}
+	// index-bounded: on every cycle the loop indexes a string or slice that it does
+	// not change (loop-invariant, hence already held) with a monotone induction variable
+	// (+/- a constant). Each cycle visits a new position, and a position outside the
+	// value is a Go index panic, not another iteration: at most len+1 cycles.
+	for b := range s {
+		domAll := true
+		for _, l := range latches {
+			if !(b == l || b.Dominates(l)) {
+				domAll = false
+			}
+		}
+		if !domAll {
+			continue
+		}
+		for _, ins := range b.Instrs {
+			var coll, idx ssa.Value
+			switch x := ins.(type) {
+			case *ssa.Lookup:
+				if _, isMap := x.X.Type().Underlying().(*types.Map); isMap {
+					continue
+				}
+				coll, idx = x.X, x.Index
+			case *ssa.IndexAddr:
+				coll, idx = x.X, x.Index
+			case *ssa.Index:
+				coll, idx = x.X, x.Index
+			default:
+				continue
+			}
+			if !la.loopInvariant(coll, s) {
+				continue
+			}
+			if la.isInduction(stripConv(idx), s) {
+				return "L", "every cycle indexes a held string or slice with the induction variable (an out-of-range position ends the loop)"
 			}
 		}
 	}
@@ -656,6 +729,27 @@ func (la *loopAnalyser) fieldInduction(v ssa.Value, s map[*ssa.BasicBlock]bool) 
 		}
 	}
 	return steps > 0
+}
+
+// initialValues: the values an induction variable (a loop phi, possibly +/- a
+// constant) has on entry to the loop.
+func (la *loopAnalyser) initialValues(v ssa.Value, s map[*ssa.BasicBlock]bool) ([]ssa.Value, bool) {
+	if b, ok := v.(*ssa.BinOp); ok && (b.Op == token.ADD || b.Op == token.SUB) {
+		if k, ok := constInt(b.Y); ok && k != 0 {
+			v = stripConv(b.X)
+		}
+	}
+	phi, ok := v.(*ssa.Phi)
+	if !ok || !s[phi.Block()] {
+		return nil, false
+	}
+	var out []ssa.Value
+	for i, e := range phi.Edges {
+		if !s[phi.Block().Preds[i]] {
+			out = append(out, e)
+		}
+	}
+	return out, true
 }
 
 func (la *loopAnalyser) isInduction(v ssa.Value, s map[*ssa.BasicBlock]bool) bool {
@@ -746,14 +840,50 @@ func (la *loopAnalyser) preCharged(f *ssa.Function, lim ssa.Value, h *ssa.BasicB
 			return
 		}
 		for _, a := range c.Common().Args[1:] {
-			for v := range backSlice(a, false) {
-				if v == lim || sameValue(stripConv(v), lim) {
-					found = true
-				}
+			if amountCovers(a, lim, 0) {
+				found = true
 			}
 		}
 	})
 	return found
+}
+
+// amountCovers: the charged amount is at least the loop bound — the bound itself,
+// the bound plus/minus something, or the bound times a constant >= 1. A product
+// with a non-constant factor (n * len(s)) does not count: the factor may be zero,
+// and then n iterations are charged nothing.
+func amountCovers(a, lim ssa.Value, depth int) bool {
+	if depth > 6 {
+		return false
+	}
+	a = stripConv(a)
+	if a == lim || sameValue(a, stripConv(lim)) {
+		return true
+	}
+	b, ok := a.(*ssa.BinOp)
+	if !ok {
+		return false
+	}
+	switch b.Op {
+	case token.ADD:
+		return amountCovers(b.X, lim, depth+1) || amountCovers(b.Y, lim, depth+1)
+	case token.SUB:
+		if _, isK := constInt(b.Y); isK {
+			return amountCovers(b.X, lim, depth+1)
+		}
+	case token.MUL:
+		if k, isK := constInt(b.Y); isK && k >= 1 {
+			return amountCovers(b.X, lim, depth+1)
+		}
+		if k, isK := constInt(b.X); isK && k >= 1 {
+			return amountCovers(b.Y, lim, depth+1)
+		}
+	case token.SHL:
+		if _, isK := constInt(b.Y); isK {
+			return amountCovers(b.X, lim, depth+1)
+		}
+	}
+	return false
 }
 
 func ruleMeter(c *Ctx) *RuleResult {
